@@ -46,6 +46,7 @@ func (p Proto) Curve() elliptic.Curve {
 
 // Config describes one protocol instance. Only the fields of the chosen protocol are used.
 type Config struct {
+	SharedIDObjects bool   // all parties share the PartyID / PeerContext objects (default: each party has its own, like separate processes)
 	PartialKeyLabel string // with RealRand: install a deterministic partial-key reader derived from this label
 	Concurrency     int    // tss.Parameters concurrency (0: 2)
 	Proto           Proto
@@ -232,7 +233,30 @@ func newNetwork(cfg Config) (*Network, error) {
 		nw.KeyHash0 = append(nw.KeyHash0, statehash.ValueHash(&cfg.EdKeys[i]))
 	}
 	ec := cfg.Proto.Curve()
+	// Every party holds its OWN objects, as separate processes do: its own PartyID object (same id, moniker,
+	// key and index as its entry in the sorted list, but not the same pointer), its own peer contexts with
+	// their own PartyID objects, and the `from` ids the transport hands over are yet other objects.
+	own := func(id *tss.PartyID) *tss.PartyID {
+		if cfg.SharedIDObjects {
+			return id
+		}
+		c := tss.NewPartyID(id.Id, id.Moniker, new(big.Int).SetBytes(id.Key))
+		c.Index = id.Index
+		return c
+	}
+	ownCtx := func(ctx *tss.PeerContext) *tss.PeerContext {
+		if cfg.SharedIDObjects {
+			return ctx
+		}
+		ids := ctx.IDs()
+		cp := make(tss.UnSortedPartyIDs, len(ids))
+		for i, id := range ids {
+			cp[i] = own(id)
+		}
+		return tss.NewPeerContext(tss.SortedPartyIDs(cp))
+	}
 	mk := func(idx int, role string, id *tss.PartyID) *Node {
+		id = own(id)
 		return &Node{Idx: idx, Role: role, ID: id, out: make(chan tss.Message, 4096)}
 	}
 	setRand := func(n *Node, p *tss.Parameters) {
@@ -260,7 +284,7 @@ func newNetwork(cfg Config) (*Network, error) {
 		ctx := tss.NewPeerContext(ids)
 		for i, id := range ids {
 			n := mk(i, "", id)
-			p := tss.NewParameters(ec, ctx, id, len(ids), cfg.Threshold)
+			p := tss.NewParameters(ec, ownCtx(ctx), own(id), len(ids), cfg.Threshold)
 			setRand(n, p)
 			if cfg.Proto == EcdsaKeygen {
 				n.endKG = make(chan *eckg.LocalPartySaveData, 16)
@@ -283,7 +307,7 @@ func newNetwork(cfg Config) (*Network, error) {
 		ctx := tss.NewPeerContext(ids)
 		for i, id := range ids {
 			n := mk(i, "", id)
-			p := tss.NewParameters(ec, ctx, id, len(ids), cfg.Threshold)
+			p := tss.NewParameters(ec, ownCtx(ctx), own(id), len(ids), cfg.Threshold)
 			setRand(n, p)
 			n.endSig = make(chan *common.SignatureData, 16)
 			var key *eckg.LocalPartySaveData
@@ -313,7 +337,7 @@ func newNetwork(cfg Config) (*Network, error) {
 		ctx := tss.NewPeerContext(ids)
 		for i, id := range ids {
 			n := mk(i, "", id)
-			p := tss.NewParameters(ec, ctx, id, len(ids), cfg.Threshold)
+			p := tss.NewParameters(ec, ownCtx(ctx), own(id), len(ids), cfg.Threshold)
 			setRand(n, p)
 			n.endSig = make(chan *common.SignatureData, 16)
 			var key *edkg.LocalPartySaveData
@@ -351,7 +375,7 @@ func newNetwork(cfg Config) (*Network, error) {
 		nw.OldN = len(oldIDs)
 		for i, id := range oldIDs {
 			n := mk(i, "old", id)
-			p := tss.NewReSharingParameters(ec, oldCtx, newCtx, id, oldN, cfg.Threshold, len(newIDs), cfg.NewThreshold)
+			p := tss.NewReSharingParameters(ec, ownCtx(oldCtx), ownCtx(newCtx), own(id), oldN, cfg.Threshold, len(newIDs), cfg.NewThreshold)
 			setRand(n, p.Parameters)
 			if cfg.NoProofMod {
 				p.SetNoProofMod()
@@ -380,7 +404,7 @@ func newNetwork(cfg Config) (*Network, error) {
 		}
 		for i, id := range newIDs {
 			n := mk(len(oldIDs)+i, "new", id)
-			p := tss.NewReSharingParameters(ec, oldCtx, newCtx, id, oldN, cfg.Threshold, len(newIDs), cfg.NewThreshold)
+			p := tss.NewReSharingParameters(ec, ownCtx(oldCtx), ownCtx(newCtx), own(id), oldN, cfg.Threshold, len(newIDs), cfg.NewThreshold)
 			setRand(n, p.Parameters)
 			if cfg.NoProofMod {
 				p.SetNoProofMod()
